@@ -1008,14 +1008,22 @@ theorem chanUpd_swap {V} (r : Runner V) (na nb : Node V) (selA selB : List Key) 
     (hne : a.1 ≠ b.1) (k : Key) (c : Chan V) :
     ChanEquiv (chanUpd r nb selB b k (chanUpd r na selA a k c)) (chanUpd r na selA a k (chanUpd r nb selB b k c)) := by
   unfold chanUpd
-  rw [reportDeps_reportValues_comm _ (valsTo r nb selB b k) (depsTo r na selA a k)]
-  rw [reportDeps_reportValues_comm _ (valsTo r na selA a k) (depsTo r nb selB b k)]
+  rw [← reportDeps_reportValues_comm _ (valsTo r nb selB b k) (depsTo r na selA a k)]
+  rw [← reportDeps_reportValues_comm _ (valsTo r na selA a k) (depsTo r nb selB b k)]
   rw [reportDeps_comm _ (depsTo r na selA a k) (depsTo r nb selB b k)]
   exact reportDeps_equiv _ _ (reportDeps_equiv _ _ (reportValues_pair_equiv r na nb selA selB a b hne k c) _) _
 
 /-- channel maps that differ only in the order of the reported values -/
-def ChansEquiv {V} (cm cm' : Chans V) : Prop :=
-  List.Forall₂ (fun p p' => p.1 = p'.1 ∧ ChanEquiv p.2 p'.2) cm cm'
+def ChansEquiv {V} : Chans V → Chans V → Prop
+  | [], [] => True
+  | p :: t, p' :: t' => p.1 = p'.1 ∧ ChanEquiv p.2 p'.2 ∧ ChansEquiv t t'
+  | _, _ => False
+
+theorem chansEquiv_map {V} (cm : Chans V) (f g : Key × Chan V → Key × Chan V)
+    (h : ∀ p, (f p).1 = (g p).1 ∧ ChanEquiv (f p).2 (g p).2) : ChansEquiv (cm.map f) (cm.map g) := by
+  induction cm with
+  | nil => exact True.intro
+  | cons p t ih => exact ⟨(h p).1, (h p).2, ih⟩
 
 /-- **the order of a batch does not matter.** Resolving `[a, b]` and `[b, a]` hands out the
     same inputs and reaches the same channels up to the order of the reported values. -/
@@ -1031,23 +1039,213 @@ theorem calcCore_batch_swap {V} (ops : ValOps V) (hm : MergePerm ops) (r : Runne
   simp only [chanUpd_pair, List.map_map, List.filterMap_map, List.any_map] at h1 h2
   have key : ∀ p : Key × Chan V, _ := fun p =>
     get_equiv ops hm _ _ (chanUpd_swap r na nb selA selB a b hne p.1 p.2)
-  refine ⟨_, _, _, _, h1, ?_, ?_⟩
+  refine ⟨_,
+    cm.map ((fun p => (p.1, (p.2.get ops true).1)) ∘ fun p => (p.1, chanUpd r na selA a p.1 (chanUpd r nb selB b p.1 p.2))),
+    _, _, h1, ?_, ?_⟩
   · rw [h2]
     congr 2
-    · congr 1
-      · apply filterMap_congr'
-        intro p _
-        simp only [Function.comp, readyOf]
-        rw [(key p).1]
-      · apply any_congr'
-        intro p _
-        simp only [Function.comp, badOf]
-        rw [(key p).1]
-  · unfold ChansEquiv
-    induction cm with
-    | nil => exact List.Forall₂.nil
-    | cons p t ih =>
-      simp only [List.map_cons]
-      exact List.Forall₂.cons ⟨rfl, (key p).2⟩ ih
+    congr 1
+    · apply filterMap_congr'
+      intro p _
+      simp only [Function.comp, readyOf]
+      rw [(key p).1]
+    · apply any_congr'
+      intro p _
+      simp only [Function.comp, badOf]
+      rw [(key p).1]
+  · apply chansEquiv_map
+    intro p
+    exact ⟨rfl, (key p).2⟩
+
+end EinoV.Engine
+
+namespace EinoV.Engine
+
+/-! ### the diamond: `a` then `b` against `b` then `a` -/
+
+/-- **two completions commute.** `a` and `b`: completed tasks of different nodes, both still
+    pending in `cm`, neither reporting a skip. Taking the completions one at a time in either
+    order reaches the same channels (up to the order of the reported values), hands out the
+    same inputs, and sees a merge failure in one order iff in the other. -/
+theorem calcCore_diamond {V} (ops : ValOps V) (hm : MergePerm ops) (r : Runner V) (hdag : r.dag = true)
+    (cm : Chans V) (na nb : Node V) (a b : Done V) (selA selB : List Key)
+    (ha : SkipFree r na a selA) (hb : SkipFree r nb b selB) (hne : a.1 ≠ b.1)
+    (hpa : Pending r na selA a cm) (hpb : Pending r nb selB b cm) (hpred : AllHavePreds cm) :
+    ∃ cmA rdA badA cmAB rdB badB cmB rdB' badB' cmBA rdA' badA',
+      calcCore ops r cm [a] = .ok (cmA, rdA, badA) ∧ calcCore ops r cmA [b] = .ok (cmAB, rdB, badB) ∧
+      calcCore ops r cm [b] = .ok (cmB, rdB', badB') ∧ calcCore ops r cmB [a] = .ok (cmBA, rdA', badA') ∧
+      ChansEquiv cmAB cmBA ∧ (rdA ++ rdB).Perm (rdB' ++ rdA') ∧ (badA || badB) = (badB' || badA') := by
+  obtain ⟨cmA, rdA, badA, cmAB, rdB, badB, rdAB, h1, h2, h3, h4⟩ :=
+    calcCore_seq_eq_batch ops r hdag cm na nb a b selA selB ha hb hne hpb hpred
+  obtain ⟨cmB, rdB', badB', cmBA, rdA', badA', rdBA, g1, g2, g3, g4⟩ :=
+    calcCore_seq_eq_batch ops r hdag cm nb na b a selB selA hb ha (fun e => hne e.symm) hpa hpred
+  obtain ⟨cm1, cm2, rd, bad, s1, s2, s3⟩ := calcCore_batch_swap ops hm r hdag cm na nb a b selA selB ha hb hne
+  rw [h3] at s1
+  rw [g3] at s2
+  simp only [Except.ok.injEq, Prod.mk.injEq] at s1 s2
+  obtain ⟨e1, e2, e3⟩ := s1
+  obtain ⟨f1, f2, f3⟩ := s2
+  refine ⟨cmA, rdA, badA, cmAB, rdB, badB, cmB, rdB', badB', cmBA, rdA', badA', h1, h2, g1, g2, ?_, ?_, ?_⟩
+  · rw [e1, f1]; exact s3
+  · exact h4.symm.trans ((e2.trans f2.symm) ▸ g4)
+  · rw [e3, f3]
+
+theorem alookup_isSome_of_mem {α} (k : Key) (l : List (Key × α)) (h : k ∈ akeys l) : (alookup k l).isSome = true := by
+  induction l with
+  | nil => simp [akeys] at h
+  | cons p t ih =>
+    obtain ⟨k', v⟩ := p
+    by_cases h1 : (k' == k) = true
+    · simp [alookup, h1]
+    · simp only [alookup, h1, Bool.false_eq_true, ↓reduceIte]
+      apply ih
+      simp only [akeys, List.map_cons, List.mem_cons] at h
+      rcases h with e | h
+      · exact absurd (by simpa using e.symm) h1
+      · exact h
+
+theorem alookup_none_iff {α} (k : Key) (l : List (Key × α)) : alookup k l = none ↔ k ∉ akeys l := by
+  constructor
+  · intro h hm
+    have := alookup_isSome_of_mem k l hm
+    rw [h] at this; cases this
+  · exact alookup_none_of_not_mem k l
+
+theorem classify_tasks {V} (x : Chans V × List (Key × V) × Bool) (cm : Chans V) (ts : List (Key × V)) :
+    classify x = .ok (cm, .tasks ts) ↔ x.1 = cm ∧ x.2.1 = ts ∧ x.2.2 = false ∧ END ∉ akeys x.2.1 := by
+  obtain ⟨c, rd, bad⟩ := x
+  unfold classify
+  cases bad with
+  | true => simp
+  | false =>
+    simp only [Bool.false_eq_true, ↓reduceIte]
+    cases hl : alookup END rd with
+    | some v =>
+      have : END ∈ akeys rd := by
+        apply Classical.byContradiction; intro hn
+        rw [alookup_none_of_not_mem _ _ hn] at hl; cases hl
+      simp [this]
+    | none =>
+      have : END ∉ akeys rd := (alookup_none_iff END rd).mp hl
+      simp [this]
+
+theorem calcNext_tasks_iff {V} (ops : ValOps V) (r : Runner V) (cm : Chans V) (done : List (Done V))
+    (cm' : Chans V) (ts : List (Key × V)) :
+    calcNext ops r cm done = .ok (cm', .tasks ts) ↔
+      calcCore ops r cm done = .ok (cm', ts, false) ∧ END ∉ akeys ts := by
+  rw [calcNext_eq_core]
+  cases hc : calcCore ops r cm done with
+  | error e => simp [Except.bind]
+  | ok x =>
+    simp only [Except.bind, classify_tasks]
+    obtain ⟨c, rd, bad⟩ := x
+    simp only [Except.ok.injEq, Prod.mk.injEq]
+    constructor
+    · rintro ⟨h1, h2, h3, h4⟩; exact ⟨⟨h1, h2, h3⟩, h2 ▸ h4⟩
+    · rintro ⟨⟨h1, h2, h3⟩, h4⟩; exact ⟨h1, h2, h3, h2 ▸ h4⟩
+
+/-- **two completions commute — the run loop's view, when they do not race for END.**
+    If taking `a` and then `b` (one completion at a time, as the eager loop does) neither
+    returns a result nor fails, then so does taking `b` and then `a`, and so does the batch
+    `[a, b]` (as `waitAll` would deliver them): the same tasks are submitted (as a multiset:
+    same nodes, same inputs) and the channels agree. -/
+theorem calcNext_diamond {V} (ops : ValOps V) (hm : MergePerm ops) (r : Runner V) (hdag : r.dag = true)
+    (cm : Chans V) (na nb : Node V) (a b : Done V) (selA selB : List Key)
+    (ha : SkipFree r na a selA) (hb : SkipFree r nb b selB) (hne : a.1 ≠ b.1)
+    (hpa : Pending r na selA a cm) (hpb : Pending r nb selB b cm) (hpred : AllHavePreds cm)
+    (cmA cmAB : Chans V) (tsA tsB : List (Key × V))
+    (h1 : calcNext ops r cm [a] = .ok (cmA, .tasks tsA))
+    (h2 : calcNext ops r cmA [b] = .ok (cmAB, .tasks tsB)) :
+    (∃ ts, calcNext ops r cm [a, b] = .ok (cmAB, .tasks ts) ∧ ts.Perm (tsA ++ tsB)) ∧
+    (∃ cmB cmBA tsB' tsA',
+      calcNext ops r cm [b] = .ok (cmB, .tasks tsB') ∧ calcNext ops r cmB [a] = .ok (cmBA, .tasks tsA') ∧
+      ChansEquiv cmAB cmBA ∧ (tsA ++ tsB).Perm (tsB' ++ tsA')) := by
+  rw [calcNext_tasks_iff] at h1 h2
+  obtain ⟨cmA', rdA, badA, cmAB', rdB, badB, cmB, rdB', badB', cmBA, rdA', badA', d1, d2, d3, d4, d5, d6, d7⟩ :=
+    calcCore_diamond ops hm r hdag cm na nb a b selA selB ha hb hne hpa hpb hpred
+  obtain ⟨_, _, _, _, _, _, rdAB, b1, b2, b3, b4⟩ :=
+    calcCore_seq_eq_batch ops r hdag cm na nb a b selA selB ha hb hne hpb hpred
+  rw [h1.1] at d1 b1
+  simp only [Except.ok.injEq, Prod.mk.injEq] at d1 b1
+  obtain ⟨e1, e2, e3⟩ := d1
+  obtain ⟨e1', e2', e3'⟩ := b1
+  subst e1 e2 e3 e1' e2' e3'
+  rw [h2.1] at d2 b2
+  simp only [Except.ok.injEq, Prod.mk.injEq] at d2 b2
+  obtain ⟨f1, f2, f3⟩ := d2
+  obtain ⟨f1', f2', f3'⟩ := b2
+  subst f1 f2 f3 f1' f2' f3'
+  have hEnd : END ∉ akeys (tsA ++ tsB) := by
+    simp only [akeys, List.map_append, List.mem_append, not_or]
+    exact ⟨by simpa [akeys] using h1.2, by simpa [akeys] using h2.2⟩
+  have hmem : ∀ l : List (Key × V), l.Perm (tsA ++ tsB) → END ∉ akeys l := by
+    intro l hl hm'
+    apply hEnd
+    unfold akeys at hm' ⊢
+    exact (hl.map _).mem_iff.mp hm'
+  constructor
+  · refine ⟨rdAB, ?_, b4⟩
+    rw [calcNext_tasks_iff]
+    exact ⟨by simpa using b3, hmem _ b4⟩
+  · have hb' : badB' = false ∧ badA' = false := by
+      have : (badB' || badA') = false := by rw [← d7]; rfl
+      simpa using this
+    have hE2 := hmem _ d6.symm
+    refine ⟨cmB, cmBA, rdB', rdA', ?_, ?_, d5, d6⟩
+    · rw [calcNext_tasks_iff]
+      refine ⟨by rw [d3, hb'.1], ?_⟩
+      intro hx; apply hE2; simp only [akeys, List.map_append, List.mem_append]; left; simpa [akeys] using hx
+    · rw [calcNext_tasks_iff]
+      refine ⟨by rw [d4, hb'.2], ?_⟩
+      intro hx; apply hE2; simp only [akeys, List.map_append, List.mem_append]; right; simpa [akeys] using hx
+
+end EinoV.Engine
+
+namespace EinoV.Engine
+
+/-! ## D. the run-level goal (stated, not proved) and what it needs -/
+
+/-- a chain of control predecessors (dependency edges and branch ends) from `x` to `t` -/
+inductive CtrlPath {V} (w : WorkflowDef V) : Key → Key → Prop
+  | edge {x t : Key} : x ∈ lookupList t w.ctrlPreds → CtrlPath w x t
+  | step {x m t : Key} : x ∈ lookupList m w.ctrlPreds → CtrlPath w m t → CtrlPath w x t
+
+/-- well-formed workflows: what `Workflow.compile` accepts, minus the two shapes with known
+    findings (DESIGN.md §5): a node without a control path to END (C03: abandoned when the
+    run returns) and a control dependency doubled by a branch end (C02: skip and dependency
+    race on one channel entry — `edge_and_branch_schedule_dependent` in Props/C02.lean). -/
+structure WorkflowDef.WF {V} (w : WorkflowDef V) : Prop where
+  keysNodup : (w.nodes.map (·.1)).Nodup
+  keysNotReserved : ∀ k ∈ w.nodes.map (·.1), k ≠ START ∧ k ≠ END
+  depsKnown : ∀ d ∈ w.deps, (d.from_ = START ∨ d.from_ ∈ w.nodes.map (·.1)) ∧ (d.to = END ∨ d.to ∈ w.nodes.map (·.1))
+  depsDistinct : ∀ d ∈ w.deps, d.control = true ∨ d.data = true
+  branchesKnown : ∀ b ∈ w.branches, (b.1 = START ∨ b.1 ∈ w.nodes.map (·.1)) ∧
+    ∀ e ∈ b.2.ends, e = END ∨ e ∈ w.nodes.map (·.1)
+  condsInEnds : ∀ b ∈ w.branches, ∀ v ws, b.2.cond v = .ok ws → ∀ e ∈ ws, e ∈ b.2.ends
+  acyclic : ∃ rank : Key → Nat, (∀ d ∈ w.deps, rank d.from_ < rank d.to) ∧
+    (∀ b ∈ w.branches, ∀ e ∈ b.2.ends, rank b.1 < rank e)
+  hasCtrlPred : ∀ k, (k = END ∨ k ∈ w.nodes.map (·.1)) → lookupList k w.ctrlPreds ≠ []
+  reachesEnd : ∀ k ∈ w.nodes.map (·.1), CtrlPath w k END
+  noEdgeAndBranch : ∀ d ∈ w.deps, d.control = true → ∀ b ∈ w.branches, b.1 = d.from_ → d.to ∉ b.2.ends
+
+/-- **GOAL — eager confluence and agreement with the batch run** (not proved; the two-completion
+    diamond `calcNext_diamond` is its induction step for skip-free completions; missing: the
+    same step for completions whose branches report skips — commutation of the skip
+    propagation work list — and the invariant `Pending ∧ AllHavePreds` along `eagerLoop`).
+
+    For every well-formed workflow, input and pair of completion schedules: if the eager run
+    succeeds under one schedule it succeeds under the other with the same result, the same
+    node executions on the same inputs, nothing abandoned; and the batch run (`waitAll`, as a
+    Graph in all-predecessor mode would run the same runner) returns the same result having
+    executed the same nodes on the same inputs. -/
+def EagerConfluenceGoal : Prop :=
+  ∀ (V : Type) (ops : ValOps V), MergePerm ops → ∀ w : WorkflowDef V, w.WF →
+    ∀ (x : V) (pick pick' : Pick V) (v : V),
+      (runEager ops (compileW ops w) pick x).result = .ok v →
+        (runEager ops (compileW ops w) pick' x).result = .ok v ∧
+        (runEager ops (compileW ops w) pick x).submitted.Perm (runEager ops (compileW ops w) pick' x).submitted ∧
+        (runEager ops (compileW ops w) pick x).abandoned = [] ∧
+        (run ops (compileW ops w) x).result = .ok v ∧
+        (run ops (compileW ops w) x).trace.flatten.Perm (runEager ops (compileW ops w) pick x).submitted
 
 end EinoV.Engine
